@@ -511,6 +511,24 @@ func c01Run(c *core.Ctx) {
 		apis(lit, []uint32{0, 1, uint32(len(lit))}, []int{0, 1}, "f5:source-literal")
 	}
 
+	// ---- family 7: degenerate XML declarations / <meta> tags (charset helpers)
+	{
+		mx, mm := 4, 4
+		if c.Thorough() {
+			mx, mm = 5, 5
+		}
+		var n uint64
+		declSyntaxDocs(mx, mm, c.Next, func(doc []byte) {
+			if c.Expired() {
+				return
+			}
+			n++
+			c.R.States++
+			apis(doc, []uint32{0, uint32(len(doc))}, []int{0}, "f7:degenerate-declaration")
+		})
+		c.Note("degenerate-declarations", n)
+	}
+
 	// ---- family 6: deep nestings, examined in full, in a child process
 	bomb := &core.Case{Kind: "c01bomb", Ints: make([]int, 6)}
 	for si := 0; si < 3; si++ {
